@@ -139,8 +139,11 @@ OneMbox == {<<"SELECT", "select">>, <<"EXAMINE", "examine">>, <<"CREATE", "creat
 
 LineAlts == {<<T("a1 ", <<"tag:a1">>), N("cmd")>>}
             \cup (IF Wide THEN {<<T("A.b-2 ", <<"tag:A.b-2">>), N("simple")>>,
-                                <<B("+x ", "badtok"), N("simple")>>,
-                                <<B("", "badtok"), N("simple")>>} ELSE {})
+                                <<B("+x NOOP", "badtok")>>,      \* "+" cannot be in a tag
+                                <<B("NOOP", "badtok")>>,         \* a tag and nothing else
+                                <<B(" a1 NOOP", "badtok")>>,
+                                <<B("a1  NOOP", "badtok")>>,     \* two spaces
+                                <<B("(a1) NOOP", "badtok")>>} ELSE {})
 SimpleAlts == {<<T(c[1], Hdr(c[2], FALSE))>> : c \in NoArg}
               \cup {<<B("UID NOOP", "badtok")>>, <<B("FROB", "badtok")>>, <<B("UID", "badtok")>>,
                     <<B("UID SELECT a", "badtok")>>}
@@ -174,6 +177,14 @@ CmdAlts ==
           <<T("APPEND ", Hdr("append", FALSE)), N("mbox_1"), T(" ", <<>>), N("optflags"), N("optdate_s"), N("msglit_s")>>,
           <<T("APPEND ", Hdr("append", FALSE)), N("mbox_1"), T(" ", <<>>), N("optflags_s"), N("optdate"), N("msglit_s")>>,
           <<T("APPEND ", Hdr("append", FALSE)), N("mbox_1"), T(" ", <<"flags(", ")", "nodate">>), N("msglit")>>}
+
+(* larger products of the same productions, for the thorough universe only *)
+Big == Wide /\ KeyDepth >= 2
+BigAlts == IF ~Big THEN {} ELSE
+    {<<h, N("set"), T(" ", <<>>), N("fetchatts")>> : h \in Both("FETCH", "fetch")}
+    \cup {<<T("LIST ", Hdr("list", FALSE)), N("selopt"), N("ref_s"), T(" ", <<>>), N("pats"), N("optreturn")>>,
+          <<T("APPEND ", Hdr("append", FALSE)), N("mbox_s"), T(" ", <<>>), N("optflags"), N("optdate"), N("msglit")>>}
+    \cup {<<h, N("set"), T(" ", <<>>), N("storeop"), T(" ", <<>>), N("flagsarg")>> : h \in Both("STORE", "store")}
 
 UserAlts == {<<S("a:", v, AllForms)>> : v \in {Plain("alice"), V("al ice", FALSE, "\"al ice\"")}}
 PassAlts == {<<S("a:", v, AllForms)>> : v \in {Plain("pw"), Escapes, Empty} \cup (IF Wide THEN {TwoLine, BraceLike} ELSE {})}
@@ -366,7 +377,7 @@ MsgLitSmall == {<<S("lit:", Msg1, {"lit"})>>}
 
 Prod(nt) ==
     CASE nt = "line"      -> IF Start = "deep" THEN DeepAlts ELSE LineAlts
-      [] nt = "cmd"       -> CmdAlts
+      [] nt = "cmd"       -> CmdAlts \cup BigAlts
       [] nt = "simple"    -> SimpleAlts
       [] nt = "mailbox"   -> MboxAlts
       [] nt = "mbox_s"    -> MboxSmall
